@@ -73,12 +73,17 @@ import (
 	"math/rand"
 	"net"
 	"os"
+	"sort"
 	"strings"
 	"testing"
 	"time"
 
 	"github.com/libp2p/go-libp2p/core/peer"
 	"github.com/libp2p/go-libp2p/core/peerstore"
+	"github.com/libp2p/go-libp2p/core/host"
+	basichost "github.com/libp2p/go-libp2p/p2p/host/basic"
+	blankhost "github.com/libp2p/go-libp2p/p2p/host/blank"
+	"github.com/libp2p/go-libp2p/p2p/net/swarm"
 	"github.com/libp2p/go-libp2p/p2p/protocol/autonatv2"
 	ma "github.com/multiformats/go-multiaddr"
 	manet "github.com/multiformats/go-multiaddr/net"
@@ -173,11 +178,15 @@ var profiles = []profile{
 		variant: [5]int{1, 0, 0, 0, 0}, length: [5]int{6, 1, 0, 0, 0},
 		dd: [7]int{10, 2, 0, 1, 1, 1, 0}, holdBefore: [5]int{2, 4, 4, 1, 0}},
 	{maxPeers: 3, minReq: 3, maxReq: 14,
-		entry:   [14]int{1, 8, 1, 3, 0, 1, 0, 1, 0, 0, 0, 0, 0, 0},
+		entry:   [14]int{1, 7, 2, 5, 0, 1, 0, 1, 0, 0, 0, 0, 0, 0},
 		gap:     [10]int{4, 1, 2, 3, 4, 4, 3, 2, 3, 2},
 		variant: [5]int{20, 0, 1, 0, 0}, length: [5]int{8, 2, 0, 0, 0},
-		dd: [7]int{10, 2, 0, 0, 0, 1, 0}, holdBefore: [5]int{10, 1, 1, 0, 0}},
+		dd: [7]int{4, 2, 0, 0, 0, 6, 0}, holdBefore: [5]int{10, 1, 1, 0, 0}},
 }
+
+// C16_BASIC_DIALER=1 gives the service a basic host (identify) as its dialer host instead of the blank host that
+// libp2p.New gives it; used to reproduce the finding described at the top of this file.
+var basicDialer = os.Getenv("C16_BASIC_DIALER") != ""
 
 func isPrivateIP(ip net.IP) bool {
 	return ip.IsPrivate() || ip.IsLoopback() || ip.IsLinkLocalUnicast() || ip.IsUnspecified()
@@ -192,13 +201,13 @@ func run(t *testing.T, tape *simrt.Tape) *common.Outcome {
 	// The stratum is drawn first: 0 = general mix, 1 = concurrency (generous per-minute limits, bursts of one
 	// peer's requests that need dial data and are held before the data is sent), 2 = windows (tight per-minute
 	// limits, many cheap requests spread over minutes).
-	stratum := g.Weighted(3, 1, 1)
+	stratum := g.Weighted(2, 1, 1)
 	pf := profiles[stratum]
 	switch stratum {
 	case 1:
 		w.lim = limits{rpm: 12, perPeer: 8, dialData: 8, maxConc: g.Range(1, 3)}
 	case 2:
-		w.lim = limits{rpm: g.Range(1, 4), perPeer: g.Range(1, 3), dialData: g.Range(1, 2), maxConc: 3}
+		w.lim = limits{rpm: g.Range(1, 4), perPeer: g.Range(1, 3), dialData: g.Range(1, 3), maxConc: 3}
 	default:
 		w.lim = limits{rpm: g.Range(2, 9), perPeer: g.Range(1, 5), dialData: g.Range(1, 4), maxConc: g.Range(1, 3)}
 	}
@@ -227,9 +236,20 @@ func run(t *testing.T, tape *simrt.Tape) *common.Outcome {
 	if shareIP {
 		cl[1].ip, cl[1].port = cl[0].ip, 4002
 	}
+	// byzantine identify: the client announces the victim's address as one of its own listen addresses
+	// (what a peer announces through identify is under its control)
+	for _, c := range cl {
+		c.announceVictim = g.Chance(1, 3)
+	}
 	w.clients = cl
-	o.Logf("stratum %d limits: global=%d per-peer=%d dial-data=%d concurrent-per-peer=%d; %d clients shareIP=%v link=%d latencies=%v randseed=%d",
-		stratum, w.lim.rpm, w.lim.perPeer, w.lim.dialData, w.lim.maxConc, nPeers, shareIP, mode, lat != nil, seed)
+	var announce []int
+	for _, c := range cl {
+		if c.announceVictim {
+			announce = append(announce, c.idx)
+		}
+	}
+	o.Logf("stratum %d limits: global=%d per-peer=%d dial-data=%d concurrent-per-peer=%d; %d clients shareIP=%v announce-victim=%v link=%d latencies=%v randseed=%d",
+		stratum, w.lim.rpm, w.lim.perPeer, w.lim.dialData, w.lim.maxConc, nPeers, shareIP, announce, mode, lat != nil, seed)
 
 	drawEntry := func(c *client) entry {
 		switch g.Weighted(pf.entry[:]...) {
@@ -266,7 +286,7 @@ func run(t *testing.T, tape *simrt.Tape) *common.Outcome {
 		case 9:
 			b := malformed[g.Int(len(malformed))]
 			return entry{raw: b, desc: fmt.Sprintf("raw:%x", b), cls: clsNever}
-		case 10: // the dialer host's own listen address
+		case 10: // the dialer host's own IP (with C16_BASIC_DIALER its listen address, which a swarm refuses to dial)
 			return tcpEntry("ip4", ipD, 4001, "", clsMaybe, true)
 		case 11:
 			return tcpEntry("ip4", c.ip, c.port, "/p2p/"+idOf(10+c.idx).String(), clsYes, true)
@@ -367,8 +387,12 @@ func run(t *testing.T, tape *simrt.Tape) *common.Outcome {
 		rand.Seed(seed)
 		n := simnet.New(tape.S, simnet.Config{Mode: mode, Latencies: lat})
 		w.n = n
-		mk := func(seed int, ip string, port int) *simhost.Node {
-			nd, err := simhost.New(n, simhost.Opts{Key: simhost.DetKey(seed), IP: ip, Port: port, Security: "noise", WithHost: true})
+		mk := func(seed int, ip string, port int, extra ...ma.Multiaddr) *simhost.Node {
+			var ho *basichost.HostOpts
+			if len(extra) > 0 {
+				ho = &basichost.HostOpts{AddrsFactory: func(a []ma.Multiaddr) []ma.Multiaddr { return append(append([]ma.Multiaddr(nil), a...), extra...) }}
+			}
+			nd, err := simhost.New(n, simhost.Opts{Key: simhost.DetKey(seed), IP: ip, Port: port, Security: "noise", WithHost: true, HostOpts: ho})
 			if err != nil {
 				o.Trouble = "node: " + err.Error()
 				return nil
@@ -381,12 +405,38 @@ func run(t *testing.T, tape *simrt.Tape) *common.Outcome {
 				nodes[i].Close()
 			}
 		}
-		w.S, w.D, w.V = mk(1, ipS, 4001), mk(2, ipD, 4001), mk(3, ipV, 4001)
-		if w.S == nil || w.D == nil || w.V == nil {
+		w.S, w.V = mk(1, ipS, 4001), mk(3, ipV, 4001)
+		// The dialer host, built the way libp2p.New builds it (config.makeAutoNATV2Host): a dial-only swarm with
+		// the no-delay dial ranker and a read-only black-hole detector under a BLANK host — no identify, so its
+		// peerstore learns nothing about a client but what dialBack puts there.
+		var dialer host.Host
+		if basicDialer {
+			// Not the shipped configuration (see the finding recorded at the top of this file): a basic host,
+			// whose identify service fills the dialer's peerstore with whatever the client announces.
+			if w.D = mk(2, ipD, 4001); w.D != nil {
+				dialer = w.D.Host
+			}
+		} else {
+			nd, err := simhost.New(n, simhost.Opts{Key: simhost.DetKey(2), IP: ipD, Security: "noise",
+				SwarmOpts: []swarm.Option{swarm.WithDialRanker(swarm.NoDelayDialRanker), swarm.WithReadOnlyBlackHoleDetector()}})
+			if err != nil {
+				o.Trouble = "dialer node: " + err.Error()
+			} else {
+				nodes = append(nodes, nd)
+				w.D = nd
+				if bh := blankhost.NewBlankHost(nd.Swarm, blankhost.WithEventBus(nd.Bus)); bh != nil {
+					dialer = bh
+				}
+			}
+		}
+		if w.S == nil || dialer == nil || w.V == nil {
+			if o.Trouble == "" {
+				o.Trouble = "could not build the server side"
+			}
 			closeAll()
 			return
 		}
-		an, err := autonatv2.New(w.D.Host, autonatv2.WithServerRateLimit(w.lim.rpm, w.lim.perPeer, w.lim.dialData, w.lim.maxConc))
+		an, err := autonatv2.New(dialer, autonatv2.WithServerRateLimit(w.lim.rpm, w.lim.perPeer, w.lim.dialData, w.lim.maxConc))
 		if err == nil {
 			err = an.Start(w.S.Host)
 		}
@@ -401,7 +451,11 @@ func run(t *testing.T, tape *simrt.Tape) *common.Outcome {
 		}()
 		w.V.Host.SetStreamHandler(autonatv2.DialBackProtocol, w.dialBackHandler(-1))
 		for _, c := range cl {
-			c.node = mk(10+c.idx, c.ip, c.port)
+			if c.announceVictim {
+				c.node = mk(10+c.idx, c.ip, c.port, ma.StringCast("/ip4/"+ipV+"/tcp/4001"))
+			} else {
+				c.node = mk(10+c.idx, c.ip, c.port)
+			}
 			if c.node == nil {
 				return
 			}
@@ -448,6 +502,18 @@ func run(t *testing.T, tape *simrt.Tape) *common.Outcome {
 		simrt.TimeSleep(40 * time.Second)
 		simrt.WaitIdle()
 
+		for _, c := range cl {
+			// evidence for dial-to-unrequested-address findings: dialBack is meant to forget the peer afterwards
+			if a := w.D.PS.Addrs(c.node.ID); len(a) > 0 {
+				var as []string
+				for _, x := range a {
+					as = append(as, x.String())
+				}
+				sort.Strings(as)
+				o.Logf("40 s after the last request the dialer host's peerstore still holds addresses of C%d: %v", c.idx, as)
+				o.Probe("dialer-peerstore-retains-client-addresses")
+			}
+		}
 		w.evaluate(n.Dials()[warmDials:])
 	})
 	o.Sched = res
